@@ -25,6 +25,9 @@ pub struct FdtReceiver {
     pub reception_start_time: SystemTime,
     enable_expired_check: bool,
     meta: Option<ObjectMetadata>,
+    /// FEC OTI and transfer length announced by the first packet of this instance
+    /// (FEC encoding id, max source block length, encoding symbol length, transfer length)
+    first_fti: Option<(u8, u32, u16, u64)>,
 }
 
 impl std::fmt::Debug for FdtReceiver {
@@ -97,10 +100,36 @@ impl FdtReceiver {
             enable_expired_check,
             meta: None,
             ext_time: None,
+            first_fti: None,
+        }
+    }
+
+    fn pkt_fti(pkt: &alc::AlcPkt) -> Option<(u8, u32, u16, u64)> {
+        match (pkt.oti.as_ref(), pkt.transfer_length) {
+            (Some(oti), Some(transfer_length)) => Some((
+                oti.fec_encoding_id as u8,
+                oti.maximum_source_block_length,
+                oti.encoding_symbol_length,
+                transfer_length,
+            )),
+            _ => None,
+        }
+    }
+
+    /// `true` if the packet announces another FEC OTI / transfer length than the one this
+    /// instance is being received with: it cannot belong to the same FDT instance
+    pub fn fti_conflicts(&self, pkt: &alc::AlcPkt) -> bool {
+        match (self.first_fti, Self::pkt_fti(pkt)) {
+            (Some(mine), Some(other)) => mine != other,
+            _ => false,
         }
     }
 
     pub fn push(&mut self, pkt: &alc::AlcPkt, now: std::time::SystemTime) {
+        if self.first_fti.is_none() {
+            self.first_fti = Self::pkt_fti(pkt);
+        }
+
         if let Ok(Some(res)) = alc::get_sender_current_time(pkt) {
             self.ext_time = Some(res);
             if res < now {
